@@ -381,6 +381,10 @@ for fld, ex in [("Position.StartLine", "GetLine(GetStart(%s))" % MRID), ("Positi
         what="method reference Type::name: the recorded position selects the name: " + fld)
 row(props=["C16"], func="cmd.processTopFile", params=["dir"], kind="callguard", callee="cmd/cmd_util.NewOutput", each={"as": "summary"}, expr="true",
     what="every language of the tree gets its table of top files, however many languages there are")
+UNQ = 'replaceAll(replaceAll(text, "\'", ""), "\\"", "")'
+for i, w in [(0, "group id"), (1, "artifact id")]:
+    row(props=["C19"], func="pkg/infrastructure/ast/ast_groovy.ConvertToJDep", params=["text"], kind="callarg", callee="pkg/domain/core_domain.NewCodeDependency", arg=i,
+        expr='call("strings.Split", %s, ":")[%d]' % (UNQ, i), what="the %s of a Gradle notation, single- or double-quoted: the quotes are no part of it" % w)
 
 json.dump({"e5": rows}, open(os.path.join(os.path.dirname(os.path.dirname(os.path.abspath(__file__))), "spec", "e5.json"), "w"), indent=1, ensure_ascii=False)
 print(len(rows), "rows")
